@@ -31,10 +31,10 @@ T = {
     "C08": ("fault_enumeration", "every crash point (before/after each SQL statement and commit) of generated operation lists, realised as os._exit in forked children; dict reference model",
             "crashdb,models", "Exhaustive in crash points per operation list, sampled in lists.",
             "SQLite's atomic commit is trusted; no power-loss/fsync faults; crash points inside sqlite's C code are not reachable."),
-    "C09": ("fault_enumeration", "restart (graceful) and kill points (transport write/drain, every sqlite statement) injected into generated two-endpoint histories",
+    "C09": ("fault_enumeration", "graceful restarts and kills at recorded crash points (before/after every sqlite statement and commit, transport write, drain) of a send or of the processing of one inbound frame, in generated two-endpoint histories; all points of 30 fixed histories",
             "crashdb,simnet", "Kill points enumerated exhaustively over fixed histories and sampled over generated ones.",
             "Kill = sqlite connection closed without commit + transport dead; same trust as C07/C08."),
-    "C10": ("exploration", "random binary + grammar-aware malformed frames + exhaustive single-byte edits of a valid corpus (+ atheris campaign in the thorough tier); reference framer as acceptance oracle; live-reader follow-up traffic",
+    "C10": ("exploration", "random binary + grammar-aware malformed frames + exhaustive single-byte edits of a valid corpus + live reader with follow-up traffic (also decodable frames the session layer chokes on) + coverage-guided atheris/libFuzzer campaign in the thorough tier; reference framer as acceptance oracle",
             "reffix,atheris", "Generated-input search; the single-byte edit sweep is exhaustive over the corpus for the stated byte set.",
             "Trusts vlib/reffix.py; a 30 s watchdog (>10^4 x slack) stands for non-termination."),
     "C11": ("exploration", "exhaustive product state x role x message class x integrity defect, each case reached through real traffic, with follow-up sends and post-disconnect input",
@@ -43,10 +43,10 @@ T = {
     "C12": ("exploration", "Hypothesis scenarios in virtual time on the real heartbeat task; toleranced timing oracle",
             "vloop,simnet", "Sampled scenarios over intervals, phases and peer scripts; liveness read as bounded-time safety.",
             "Virtual clock replaces time.time and the loop clock; tolerances stated in DESIGN.md C12."),
-    "C13": ("exploration", "Hypothesis rule-based state machine over an in-memory Journaler vs a dict reference model, compared after every rule",
+    "C13": ("exploration", "Hypothesis-generated operation histories on an in-memory (and, with close/reopen operations, file-backed) Journaler vs a dict reference model, compared after every operation",
             "models", "Stateful generated histories against a reference model.",
             "In-memory sqlite behaves like file-backed sqlite for these operations."),
-    "C14": ("exploration", "bounded-exhaustive schedule enumeration with a gate scheduler over drain() back-pressure and awaited hooks, plus random schedules",
+    "C14": ("exploration", "bounded-exhaustive schedule enumeration with a gate scheduler over drain() back-pressure and awaited hooks (acceptor and first-Logon initiator task sets), plus random schedules; wire-order numbering, journal and replay-completeness oracle",
             "gates,simnet", "All schedules up to the stated number of suspension points for the listed task sets; larger sets sampled.",
             "Only interleavings that cooperative asyncio scheduling permits (FIFO drain wake-up) are generated."),
     "C15": ("exploration", "dictionary-driven valid instances for every message type, single-fault mutants per class and position, permutation metamorphic relation on <components>",
@@ -98,11 +98,21 @@ def main():
             "add_only": True,
         },
         "engines": [
-            {"name": "runner", "path": "vlib/runner.py", "serves_properties": sorted(T), "kind_free_text": "sharded generated-input runner, evidence, known findings, replay"},
+            {"name": "runner", "path": "vlib/runner.py", "serves_properties": sorted(T), "kind_free_text": "sharded generated-input runner (fresh process per shard), evidence, known findings, replay"},
+            {"name": "hyp", "path": "vlib/hyp.py", "serves_properties": sorted(T), "kind_free_text": "seeded, database-less Hypothesis driver (generate phase; oracles bucket failures by signature), ddmin"},
+            {"name": "reffix", "path": "vlib/reffix.py", "serves_properties": ["C02", "C03", "C04", "C05", "C06", "C07", "C09", "C10", "C11", "C12", "C14", "C20"], "kind_free_text": "independent FIX 4.4 framer / parser / encoder (oracle and counterparty traffic)"},
+            {"name": "simnet", "path": "vlib/simnet.py", "serves_properties": ["C02", "C03", "C04", "C05", "C06", "C07", "C09", "C10", "C11", "C12", "C14", "C20"], "kind_free_text": "virtual-time event loop (vlib/vloop.py), simulated link, recording endpoints over the real connect/accept paths"},
+            {"name": "sess", "path": "vlib/sess.py", "serves_properties": ["C02", "C04", "C05", "C06", "C11", "C12", "C14"], "kind_free_text": "one real endpoint against a scripted counterparty"},
+            {"name": "duo", "path": "vlib/duo.py", "serves_properties": ["C07", "C09", "C20"], "kind_free_text": "two real endpoints, frame-by-frame delivery, breaks, reconnects, closure"},
+            {"name": "crashdb", "path": "vlib/crashdb.py", "serves_properties": ["C08", "C09"], "kind_free_text": "crash points around every sqlite statement and commit"},
+            {"name": "codec_gen", "path": "vlib/codec_gen.py", "serves_properties": ["C01", "C02"], "kind_free_text": "group-table driven generator of well-formed messages with its own nested-list ground truth"},
+            {"name": "dictref", "path": "vlib/dictref.py", "serves_properties": ["C15", "C19", "C20"], "kind_free_text": "independent QuickFIX XML dictionary reader"},
+            {"name": "lexical", "path": "vlib/lexical.py", "serves_properties": ["C15", "C19"], "kind_free_text": "three-valued oracle for the FIX 4.4 datatype lexical spaces"},
+            {"name": "ordermodel", "path": "vlib/ordermodel.py", "serves_properties": ["C17"], "kind_free_text": "single-order exchange simulator restricted to the FIX 4.4 order state matrices"},
         ],
         "checks": [],
         "not_applicable": [],
-        "notes": "All checks: ./check <ID> --tier quick|thorough [--replay file]; VERIF_SEED selects the seed. See DESIGN.md.",
+        "notes": "All checks: ./check <ID> --tier quick|thorough [--replay file]; VERIF_SEED selects the seed. Known findings and repaired defects: KNOWN_FINDINGS.txt (never written at run time). Seeded defects and their detection matrix: seeded/ and seeded/RESULTS.md. See DESIGN.md section 10.",
     }
     done = built()
     for pid in sorted(T):
@@ -115,7 +125,7 @@ def main():
                 "evidence_file": f"evidence/{pid}.json",
                 "replay_cmd_template": f"./check {pid} --replay {{path}}",
                 "engine": eng,
-                "level_claimed": {"category": cat, "text": text, "design_ref": f"DESIGN.md section 3, {pid}"},
+                "level_claimed": {"category": cat, "text": text, "design_ref": f"DESIGN.md section 3 ({pid}) and section 10 (implementation record)"},
                 "level_note": note,
                 "technique": tech,
             })
